@@ -678,7 +678,15 @@ def cppcheck(ctx, cwd, files, bd=None, jobs=1, extra=None):
     cmd = [ctx.cppcheck, "-q", TEMPLATE, "--error-exitcode=3", "-j%d" % jobs] + (["--inline-suppr"] if extra is None else list(extra))
     if bd:
         cmd += ["--cppcheck-build-dir=" + bd, "--debug-analyzerinfo"]
-    rc, out, err = core.sh(cmd + files, cwd=cwd, timeout=300)
+    for attempt in range(6):
+        try:
+            rc, out, err = core.sh(cmd + files, cwd=cwd, timeout=300)
+            break
+        except (PermissionError, OSError) as e:      # the shared binary is being relinked by a concurrent check: same command again
+            if attempt == 5:
+                raise core.CheckBroken("cannot execute %s: %s" % (ctx.cppcheck, e))
+            import time
+            time.sleep(3)
     findings = sorted(l for l in err.split("\n") if l.count("|") >= 5)
     other = [l for l in err.split("\n") if l and l.count("|") < 5]
     dec = {}
